@@ -870,7 +870,7 @@ theorem select_optimal {S : List Pt} {r : Pt} {k : Nat} (hS : ∀ p ∈ S, p.len
   simp only at hF hgood hidx hdom ⊢
   generalize createFrontWith ptLtFixed S r = F at *
   obtain ⟨o1, o2, o3, o4⟩ := hypSSP_optimal hF hk hkF
-  have hgetD : ∀ j, j < F.length → ∀ d : P2, F.getD j d = F[j]'‹_› := by
+  have hgetD : ∀ j (hj : j < F.length) (d : P2), F.getD j d = F[j] := by
     intro j hj d
     simp [List.getD_eq_getElem?_getD, List.getElem?_eq_getElem hj]
   generalize hsel : ((hypSSP F k).map fun i => (F.getD i ⟨0, 0, S.length⟩).idx) = sel
@@ -892,7 +892,7 @@ theorem select_optimal {S : List Pt} {r : Pt} {k : Nat} (hS : ∀ p ∈ S, p.len
     rw [hgetD a (o3 a ha), hgetD b (o3 b hb)] at e
     have e' : (F.map (·.idx))[a]'(by simpa using o3 a ha) = (F.map (·.idx))[b]'(by simpa using o3 b hb) := by
       simpa using e
-    exact hab ((hidx.getElem_inj_iff).mp e')
+    exact hab ((List.getElem_inj hidx).mp e')
   refine ⟨by simp, ?_, ?_⟩
   · rw [count_flags hsel_nd hsel_lt, ← hsel, List.length_map, o2]
   · intro T hT hTk
@@ -905,16 +905,16 @@ theorem select_optimal {S : List Pt} {r : Pt} {k : Nat} (hS : ∀ p ∈ S, p.len
     have hT'sub : (F.filter fun q => decide (q ∈ D)).Sublist F := List.filter_sublist
     have hFnd : F.Nodup := hF.mono.imp (by intro a b h e; subst e; omega)
     have hT'len : (F.filter fun q => decide (q ∈ D)).length ≤ k := by
-      refine Nat.le_trans (List.Nodup.length_le_of_subset (hFnd.sublist hT'sub) ?_) (by omega)
+      refine Nat.le_trans (List.Nodup.length_le_of_subset (l₂ := D) (hFnd.sublist hT'sub) ?_) (by omega)
       intro q hq
       simpa using (List.mem_filter.mp hq).2
     refine Nat.le_trans ?_ (Nat.le_trans (o4 _ hT'sub hT'len) ?_)
-    · apply hvSpec_mono (m := 2) rfl (by simp [P2.pt])
+    · apply hvSpec_mono (m := 2) rfl (by intro q hq; obtain ⟨x, _, rfl⟩ := List.mem_map.mp hq; rfl)
       intro p hp
       obtain ⟨p0, hp0, rfl⟩ := List.mem_map.mp hp
       obtain ⟨q, hq, hqp⟩ := d3 p0 hp0
       exact ⟨q.pt, List.mem_map.mpr ⟨q, List.mem_filter.mpr ⟨d2 q hq, by simpa using hq⟩, rfl⟩, hqp⟩
-    · apply hvSpec_mono_subset (m := 2) rfl (by simp [shift])
+    · apply hvSpec_mono_subset (m := 2) rfl (by intro q hq; obtain ⟨x, _, rfl⟩ := List.mem_map.mp hq; rfl)
       intro p hp
       obtain ⟨j, hj, rfl⟩ := List.mem_map.mp hp
       have hjl := o3 j hj
@@ -924,5 +924,197 @@ theorem select_optimal {S : List Pt} {r : Pt} {k : Nat} (hS : ∀ p ∈ S, p.len
       refine List.mem_map.mpr ⟨p0, ?_, rfl⟩
       rw [← hsp]
       exact mem_flagged hp0 (hselmem j hj)
+/-- non-vacuity of L5 (the hypotheses; the front of this input has 3 points) -/
+example : (∀ p ∈ ([[1, 5], [2, 3], [2, 4], [4, 1]] : List Pt), p.length = 2) ∧
+    (∀ p ∈ ([[1, 5], [2, 3], [2, 4], [4, 1]] : List Pt), leAll p [6, 6] = true) ∧
+    (createFrontWith ptLtFixed [[1, 5], [2, 3], [2, 4], [4, 1]] [6, 6]).length = 3 := by
+  decide
+
+/-! ### the comparator of the C++ (`ptLt`) on inputs with pairwise distinct first coordinates -/
+
+/-- where the first coordinates differ, `Point::operator<` as written agrees with the intended order
+(the script does not look at the tie-break line of the generated `sspPointLess`) -/
+theorem ptLt_eq_fixed {a b : P2} (h : a.f1 ≠ b.f1) : ptLt a b = ptLtFixed a b := by
+  unfold ptLt SharkVerif.Gen.sspPointLess ptLtFixed
+  by_cases h1 : a.f1 < b.f1
+  · simp [h1]
+  · have h2 : b.f1 < a.f1 := by omega
+    simp [h1, h2]
+
+theorem linInsert_congr {α} {lt lt' : α → α → Bool} (v : α) : ∀ (rl : List α),
+    (∀ e ∈ rl, lt v e = lt' v e) → linInsert lt v rl = linInsert lt' v rl
+  | [], _ => rfl
+  | e :: es, h => by
+    rw [linInsert, linInsert, h e (by simp),
+      linInsert_congr v es (fun e' he' => h e' (List.mem_cons_of_mem _ he'))]
+
+theorem linInsert_perm {α} (lt : α → α → Bool) (v : α) : ∀ (rl : List α), (linInsert lt v rl).Perm (v :: rl)
+  | [] => by simp [linInsert]
+  | e :: es => by
+    rw [linInsert]
+    split
+    · exact (List.Perm.cons e (linInsert_perm lt v es)).trans (List.Perm.swap v e es)
+    · exact List.Perm.refl _
+
+theorem insStep_congr {α} {lt lt' : α → α → Bool} (acc : List α) (v : α) (h : ∀ e ∈ acc, lt v e = lt' v e) :
+    insStep lt acc v = insStep lt' acc v := by
+  match acc, h with
+  | [], _ => rfl
+  | first :: rest, h =>
+    rw [insStep, insStep, h first (by simp),
+      linInsert_congr v (first :: rest).reverse (fun e he => h e (List.mem_reverse.mp he))]
+
+theorem insStep_perm {α} (lt : α → α → Bool) (acc : List α) (v : α) : (insStep lt acc v).Perm (v :: acc) := by
+  match acc with
+  | [] => simp [insStep]
+  | first :: rest =>
+    rw [insStep]
+    split
+    · exact List.Perm.refl _
+    · exact (List.reverse_perm _).trans
+        ((linInsert_perm lt v _).trans (List.Perm.cons v (List.reverse_perm _)))
+
+/-- insertion sort only compares each element with the elements before it -/
+theorem insSort_congr {α} {lt lt' : α → α → Bool} (l : List α)
+    (h : l.Pairwise (fun a b => lt b a = lt' b a)) : insSort lt l = insSort lt' l := by
+  unfold insSort
+  have key : ∀ (l acc : List α), (∀ v ∈ l, ∀ e ∈ acc, lt v e = lt' v e) →
+      l.Pairwise (fun a b => lt b a = lt' b a) → l.foldl (insStep lt) acc = l.foldl (insStep lt') acc := by
+    intro l
+    induction l with
+    | nil => intro acc _ _; rfl
+    | cons v l ih =>
+      intro acc h1 h2
+      have h2' := List.pairwise_cons.mp h2
+      rw [List.foldl_cons, List.foldl_cons, insStep_congr acc v (h1 v (by simp))]
+      apply ih _ _ h2'.2
+      intro w hw e he
+      rcases List.mem_cons.mp ((insStep_perm lt' acc v).mem_iff.mp he) with rfl | he
+      · exact h2'.1 w hw
+      · exact h1 w (List.mem_cons_of_mem _ hw) e he
+  exact key l [] (by simp) h
+
+/-- on inputs with pairwise distinct first coordinates `std::sort` with the comparator as written and with the
+intended comparator give the same front -/
+theorem createFront_eq_fixed {S : List Pt} (hd : S.Pairwise (fun p q => px p ≠ px q)) (r : Pt) :
+    createFront S r = createFrontWith ptLtFixed S r := by
+  unfold createFront
+  rw [createFrontWith_eq, createFrontWith_eq, insSort_congr]
+  rw [List.pairwise_map]
+  have hz : S.zipIdx.Pairwise (fun a b => px a.1 ≠ px b.1) :=
+    (List.pairwise_map (f := Prod.fst) (R := fun p q : Pt => px p ≠ px q) (l := S.zipIdx)).mp
+      (by rw [List.zipIdx_map_fst]; exact hd)
+  refine hz.imp ?_
+  intro a b hab
+  apply ptLt_eq_fixed
+  simp only [mkP]
+  omega
+
+/-- on inputs with pairwise distinct first coordinates the operator as written coincides with the operator run
+with the intended comparator -/
+theorem select_eq_selectWith_fixed {S : List Pt} (hd : S.Pairwise (fun p q => px p ≠ px q)) (k : Nat) (r : Pt) :
+    select S k r = selectWith ptLtFixed S k r := by
+  have hfront : createFrontWith ptLt S r = createFrontWith ptLtFixed S r := createFront_eq_fixed hd r
+  unfold select selectWith
+  rw [hfront]
+
+theorem selected_eq_selectedWith_fixed {S : List Pt} (hd : S.Pairwise (fun p q => px p ≠ px q)) (k : Nat)
+    (r : Pt) : selected S k r = selectedWith ptLtFixed S k r := by
+  unfold selected selectedWith; rw [select_eq_selectWith_fixed hd]
+
+/-- **L5 for the operator as written**, on inputs with pairwise distinct first coordinates -/
+theorem select_optimal_distinct {S : List Pt} {r : Pt} {k : Nat} (hS : ∀ p ∈ S, p.length = 2) (hr : r.length = 2)
+    (hle : ∀ p ∈ S, leAll p r = true) (hd : S.Pairwise (fun p q => px p ≠ px q))
+    (hk : 1 ≤ k) (hkF : k ≤ (createFront S r).length) :
+    (select S k r).length = S.length ∧ (select S k r).count true = k ∧
+    ∀ T : List Pt, T.Sublist S → T.length ≤ k → hvSpec T r ≤ hvSpec (selected S k r) r := by
+  rw [createFront_eq_fixed hd] at hkF
+  rw [select_eq_selectWith_fixed hd, selected_eq_selectedWith_fixed hd]
+  exact select_optimal hS hr hle hk hkF
+
+example : ([[1, 5], [2, 3], [4, 1]] : List Pt).Pairwise (fun p q => px p ≠ px q) := by decide
+
+/-! ### connection with the brute-force specification `bestSubsetHv` -/
+
+theorem mem_choose : ∀ (k : Nat) (S T : List Pt), T ∈ choose k S ↔ T.Sublist S ∧ T.length = k
+  | 0, S, T => by
+    have e : choose 0 S = [[]] := by cases S <;> rfl
+    rw [e, List.mem_singleton, List.length_eq_zero_iff]
+    constructor
+    · rintro rfl; simp
+    · exact fun h => h.2
+  | k + 1, [], T => by
+    simp only [choose, List.not_mem_nil, List.sublist_nil, false_iff, not_and]
+    rintro rfl; simp
+  | k + 1, p :: rest, T => by
+    simp only [choose, List.mem_append, List.mem_map, mem_choose k rest, mem_choose (k + 1) rest]
+    constructor
+    · rintro (⟨T', ⟨h1, h2⟩, rfl⟩ | ⟨h1, h2⟩)
+      · exact ⟨h1.cons_cons p, by simp [h2]⟩
+      · exact ⟨h1.cons p, h2⟩
+    · rintro ⟨h1, h2⟩
+      cases h1 with
+      | cons _ h => exact Or.inr ⟨h, h2⟩
+      | cons_cons _ h => exact Or.inl ⟨_, ⟨h, by simpa using h2⟩, rfl⟩
+
+theorem foldl_max_eq_of_mem : ∀ (l : List Nat) (a m : Nat), a ≤ m → (∀ x ∈ l, x ≤ m) → (a = m ∨ m ∈ l) →
+    l.foldl max a = m
+  | [], a, m, _, _, h => by
+    rcases h with rfl | h
+    · rfl
+    · simp at h
+  | x :: l, a, m, ha, hub, h => by
+    rw [List.foldl_cons]
+    have hx := hub x (by simp)
+    apply foldl_max_eq_of_mem l _ m (Nat.max_le.mpr ⟨ha, hx⟩) (fun y hy => hub y (List.mem_cons_of_mem _ hy))
+    rcases h with rfl | h
+    · left; omega
+    · rcases List.mem_cons.mp h with rfl | h
+      · left; omega
+      · exact Or.inr h
+
+/-- the selected points form a sub-list of the input with as many elements as flags are set -/
+theorem selectedWith_sublist (lt : P2 → P2 → Bool) (S : List Pt) (k : Nat) (r : Pt) :
+    (selectedWith lt S k r).Sublist S ∧ (selectedWith lt S k r).length = (selectWith lt S k r).count true := by
+  have hlen : (selectWith lt S k r).length = S.length := by simp [selectWith]
+  unfold selectedWith
+  generalize selectWith lt S k r = fl at hlen
+  constructor
+  · have := (List.filter_sublist (p := fun x : Pt × Bool => x.2) (l := S.zip fl)).map Prod.fst
+    rwa [List.map_fst_zip (by omega)] at this
+  · have h2 : fl.filter (fun b => b == true) = ((S.zip fl).filter (fun x => x.2 == true)).map Prod.snd := by
+      conv => lhs; rw [← List.map_snd_zip (l₁ := S) (l₂ := fl) (by omega), List.filter_map]
+      rfl
+    rw [List.count_eq_countP, List.countP_eq_length_filter, h2, List.length_map, List.length_map]
+    congr 1
+    apply List.filter_congr
+    intro x _
+    simp
+
+/-- **end to end**: the hypervolume of the points selected by the operator (intended comparator) is the largest
+hypervolume of a `k`-element sub-list of the input -/
+theorem select_eq_bestSubsetHv {S : List Pt} {r : Pt} {k : Nat} (hS : ∀ p ∈ S, p.length = 2) (hr : r.length = 2)
+    (hle : ∀ p ∈ S, leAll p r = true) (hk : 1 ≤ k) (hkF : k ≤ (createFrontWith ptLtFixed S r).length) :
+    hvSpec (selectedWith ptLtFixed S k r) r = bestSubsetHv S k r := by
+  obtain ⟨_, h2, h3⟩ := select_optimal hS hr hle hk hkF
+  obtain ⟨s1, s2⟩ := selectedWith_sublist ptLtFixed S k r
+  unfold bestSubsetHv
+  symm
+  apply foldl_max_eq_of_mem _ 0 _ (Nat.zero_le _)
+  · intro x hx
+    obtain ⟨T, hT, rfl⟩ := List.mem_map.mp hx
+    obtain ⟨t1, t2⟩ := (mem_choose k S T).mp hT
+    exact h3 T t1 (Nat.le_of_eq t2)
+  · right
+    exact List.mem_map.mpr ⟨_, (mem_choose k S _).mpr ⟨s1, by rw [s2, h2]⟩, rfl⟩
+
+/-- the same for the operator as written, on inputs with pairwise distinct first coordinates -/
+theorem selected_eq_bestSubsetHv_distinct {S : List Pt} {r : Pt} {k : Nat} (hS : ∀ p ∈ S, p.length = 2)
+    (hr : r.length = 2) (hle : ∀ p ∈ S, leAll p r = true) (hd : S.Pairwise (fun p q => px p ≠ px q))
+    (hk : 1 ≤ k) (hkF : k ≤ (createFront S r).length) :
+    hvSpec (selected S k r) r = bestSubsetHv S k r := by
+  rw [createFront_eq_fixed hd] at hkF
+  rw [selected_eq_selectedWith_fixed hd]
+  exact select_eq_bestSubsetHv hS hr hle hk hkF
 
 end SharkVerif.SSP
